@@ -8,4 +8,8 @@ CHECKS = {
    technique="stateless model checking of the real code: exhaustive schedule enumeration under a controlled scheduler with deviation/preemption bounding",
    text="Every interleaving (within the stated bound) of the real input-splitting and bucket tasks of wild's string merging is executed, on the production 16-bucket build and on the verif-b2 build (same source, 2 buckets), for G<=4 input groups and split parallelism P<=3; on each execution: termination, no deadlock, each bucket takes groups 0..G-1 exactly once in order, all buckets finish, no input group stranded, pool returns to capacity (in-code assert), exit status and output bytes equal to the default schedule; error path (unterminated string) fails rather than hangs.",
    note="Sequentially consistent interleavings only; 2-bucket build assumed representative of bucket-bucket and bucket-input interactions (verdict for 16 buckets rests on the b16 runs, bound 1 quick / restricted bound 2 thorough)."),
+ "C26": dict(engine="wsched", level="model_checking", ref="DESIGN.md §2 C26, §1.3",
+   technique="stateless model checking of the real code (exhaustive schedule enumeration, deviation bounded) + exhaustive configuration product",
+   text="Failing programs with 2-3 independent errors (undefined symbols in different groups, same group; two unterminated merge-string sections) and a program with two warnings are linked under every schedule within the deviation bound of the region that reports the error (gc / merge), and under threads {1,2,4,8,16} x files-per-group {unset,1}; exit status, error text and the set of warnings must be identical to the default schedule's.",
+   note="Errors raised in par_iter-only phases (symbol resolution, section resolution, size finalisation, writing) are covered by the configuration product only, not by schedule exploration."),
 }
